@@ -1,5 +1,6 @@
 mod c04;
 mod c19;
+mod util;
 
 fn main() {
     let args = vpc::Args::parse();
